@@ -10,7 +10,7 @@
 From Coq Require Import ZArith List Bool Reals.
 From Flocq Require Import Core.
 From NS Require Import Base.Sx Base.NoteSeq Base.FloatBridge Gen.G01 Model.Quantize
-                       Proofs.Quantize Proofs.QuantizeFloat Proofs.QuantizeTop.
+                       Proofs.Quantize Proofs.QuantizeFloat Proofs.QuantizeFloatExt Proofs.QuantizeTop.
 Import ListNotations.
 Local Open Scope Z_scope.
 
@@ -356,3 +356,60 @@ Theorem C01_legacy_time_signature_change_refuted :
   exists tss t1 t2 out, In t1 tss /\ In t2 tss /\ tsig_same t1 t2 = false /\ check_tsigs true tss = Ok out.
 Proof. exact check_tsigs_legacy_refuted. Qed.
 Print Assumptions C01_legacy_time_signature_change_refuted.
+
+(** ** Extensions *)
+
+(** the integer codes under which times and qpm values travel: every code below the infinity pattern
+    decodes to a finite float whose value is [code_val]; the integer order on codes is the order on the
+    decoded times; code 0 is the only zero (so [sorted(key=time)] / [time != 0] in the code are the
+    [Z] comparisons of the model) *)
+Theorem C01_code_decodes : forall c, code_ok c -> R_of (fdec c) = code_val c /\ fin (fdec c).
+Proof. exact fdec_R. Qed.
+Print Assumptions C01_code_decodes.
+
+Theorem C01_code_order_is_time_order : forall c1 c2,
+  code_ok c1 -> code_ok c2 -> c1 <= c2 -> (R_of (fdec c1) <= R_of (fdec c2))%R.
+Proof. exact fdec_mono. Qed.
+Print Assumptions C01_code_order_is_time_order.
+
+Theorem C01_code_zero_is_time_zero : forall c, code_ok c -> (code_val c = 0%R <-> c = 0).
+Proof. exact code_val_zero_iff. Qed.
+Print Assumptions C01_code_zero_is_time_zero.
+
+(** tempo-relative quantization returns the step nearest to the EXACT position t*spq*qpm/60 (all four
+    roundings accounted for), outside a 2^-49-relative neighbourhood of a half-step boundary *)
+Theorem C01_q2s_rel_nearest : forall t spq qpm,
+  fin t -> 1 <= spq <= 1024 -> fin qpm -> (1 <= R_of qpm <= 1024)%R ->
+  (0 <= R_of t <= bpow radix2 40)%R ->
+  let P := (R_of t * (IZR spq * R_of qpm / 60))%R in
+  let k := Zfloor (P + / 2) in
+  let D := (bpow radix2 (-49) * (P + 1))%R in
+  (IZR k + D < P + / 2 < IZR k + 1 - D)%R ->
+  q2s t (sps_rel spq qpm) = k.
+Proof. exact q2s_rel_nearest. Qed.
+Print Assumptions C01_q2s_rel_nearest.
+
+(** stretch invariance on floats: time * f and qpm / f (one rounding each) give the same step, outside a
+    2^-48-relative neighbourhood of a half-step boundary of the exact position *)
+Theorem C01_stretch_invariance_float : forall t f spq qpm,
+  fin t -> fin f -> fin qpm -> 1 <= spq <= 1024 ->
+  (0 <= R_of t <= bpow radix2 38)%R -> (/ 4 <= R_of f <= 4)%R -> (4 <= R_of qpm <= 256)%R ->
+  let P := (R_of t * (IZR spq * R_of qpm / 60))%R in
+  let k := Zfloor (P + / 2) in
+  let M := (bpow radix2 (-48) * (P + 1))%R in
+  (IZR k + M < P + / 2 < IZR k + 1 - M)%R ->
+  q2s (PrimFloat.mul t f) (sps_rel spq (PrimFloat.div qpm f)) = q2s t (sps_rel spq qpm).
+Proof. exact stretch_invariance_float. Qed.
+Print Assumptions C01_stretch_invariance_float.
+
+Example C01_stretch_invariance_float_nonvacuous :
+  let t := f_of_Z 1 in let f := f_of_Z 2 in let qpm := f_of_Z 60 in let spq := 4 in
+  fin t /\ fin f /\ fin qpm /\ 1 <= spq <= 1024 /\
+  (0 <= R_of t <= bpow radix2 38)%R /\ (/ 4 <= R_of f <= 4)%R /\ (4 <= R_of qpm <= 256)%R /\
+  (let P := (R_of t * (IZR spq * R_of qpm / 60))%R in
+   let k := Zfloor (P + / 2) in
+   let M := (bpow radix2 (-48) * (P + 1))%R in
+   (IZR k + M < P + / 2 < IZR k + 1 - M)%R) /\
+  q2s (PrimFloat.mul t f) (sps_rel spq (PrimFloat.div qpm f)) = 4.
+Proof. exact stretch_invariance_float_nonvacuous. Qed.
+Print Assumptions C01_stretch_invariance_float_nonvacuous.
